@@ -151,6 +151,27 @@ func (j *JSON) Done(key string, whileLocked func(sts.Cached)) {
 	}
 }
 
+// DoneIfHash is Done for one version (hash) of the file: nothing happens if
+// the file has changed in the cache since that version was hashed
+func (j *JSON) DoneIfHash(key, hash string, whileLocked func(sts.Cached)) {
+	f := j.Get(key)
+	if f == nil {
+		return
+	}
+	j.mutex.Lock()
+	defer j.mutex.Unlock()
+	if f.IsDone() || f.GetHash() != hash {
+		return
+	}
+	j.dirty = true
+	f.(*cacheFile).mux.Lock()
+	f.(*cacheFile).Done = true
+	f.(*cacheFile).mux.Unlock()
+	if whileLocked != nil {
+		whileLocked(f)
+	}
+}
+
 // Reset clears the hash
 func (j *JSON) Reset(key string) {
 	f := j.Get(key)
